@@ -9,7 +9,7 @@ Driver for the `pickle` machine (C16).  Stateless, one request per line.
       -> <groups> # <rebuilt circuit | err ..> # inv=.. iterok=.. kahn=same|diff ncycles=a:b
      groups: the payload's cycles, each item printed as an op (gate index resolved), items by
      '+', groups by '/', in the order `__reduce__` emits them (DAG iteration)
-  rebuild <n> <radixes> <g;rad;npar,...> <gi;loc;par+.../...>
+  rebuild <n> <radixes> <g;rad;npar&...> <gi;loc;par+.../...>
       -> <circuit> | err <class>          (arbitrary payload: the malformed stream)
   eqhash <op> <op>          -> eq=<bool> hasheq=<bool> geq=<bool> ghasheq=<bool>
   errmul <p/q> <p/q> ...    -> folded update_error_mul, exact
@@ -86,7 +86,7 @@ def step (line : String) : String :=
      | none => "bad-op")
   | [["rebuild", n, r, gs, cs]] =>
     (match n.toNat?, splitNats (if r == "-" then "" else r),
-       (if gs == "-" then some [] else (gs.splitOn ",").mapM parseGate),
+       (if gs == "-" then some [] else (gs.splitOn "&").mapM parseGate),
        (if cs == "-" then some [] else (cs.splitOn "/").mapM (fun cy =>
           if cy == "" then some [] else (cy.splitOn "+").mapM parseMOp)) with
      | some n, some r, some gs, some cs => showRes (Pickled.rebuild ⟨n, r, gs, cs⟩)
